@@ -288,7 +288,7 @@ theorem kont_ranked (t : Tree K V) (hi : IdsOk t) (hch : ChainOk t) (cur : Optio
       List.not_mem_nil, or_false] at hhd
     simp only [kontLock, Option.some.injEq] at hl
     subst hl
-    obtain ⟨hr, ⟨_, ⟨hkid, hleft⟩, hrest⟩, hright⟩ := hk
+    obtain ⟨hr, ⟨_, ⟨hkid, hleft⟩, hrest⟩, hright, _⟩ := hk
     subst hr
     obtain ⟨shn, hn, hhigh⟩ := frames_high hi rest fr.node hrest
     obtain ⟨shr, hrl, hrh⟩ := kid_look hi hright hn
